@@ -1,4 +1,5 @@
 import PyxisVerif.Spec.C14
+/-! helper lemmas for C14 / C15 -/
 namespace PyxisVerif.C14
 open Gen
 
